@@ -394,75 +394,60 @@ def T_unknown(why):
     return ("unknown", why)
 
 
-def term_calls(term, acc=None):
-    """all ('call', name, args, site) nodes in a term"""
-    if acc is None:
-        acc = []
+def children(term):
+    """direct sub-terms of a provenance term"""
     if not isinstance(term, tuple):
-        return acc
+        return ()
     k = term[0]
     if k == "call":
-        acc.append(term)
-        for a in term[2]:
-            term_calls(a, acc)
-    elif k in ("field", "variant", "await", "try", "index", "un", "cast"):
-        term_calls(term[1], acc)
-    elif k == "alt":
-        for a in term[1]:
-            term_calls(a, acc)
-    elif k == "agg":
-        for a in term[3].values():
-            term_calls(a, acc)
-    elif k == "tuple":
-        for a in term[1]:
-            term_calls(a, acc)
-    elif k == "bin":
-        term_calls(term[2], acc)
-        term_calls(term[3], acc)
-    elif k == "mut":
-        term_calls(term[1], acc)
-        for a in term[2]:
-            term_calls(a, acc)
-    return acc
+        return tuple(term[2])
+    if k in ("field", "variant", "await", "try", "index", "un", "cast", "partial"):
+        return (term[1],)
+    if k in ("alt", "tuple"):
+        return tuple(term[1])
+    if k == "agg":
+        return tuple(term[3].values())
+    if k == "bin":
+        return (term[2], term[3])
+    if k == "mut":
+        return (term[1],) + tuple(term[2])
+    return ()
+
+
+def walk(term, seen=None, budget=None):
+    """pre-order iteration over all sub-terms (shared sub-terms visited once)"""
+    stack = [term]
+    seen = set()
+    n = 0
+    while stack:
+        t = stack.pop()
+        if not isinstance(t, tuple):
+            continue
+        i = id(t)
+        if i in seen:
+            continue
+        seen.add(i)
+        n += 1
+        if n > 200000:
+            return
+        yield t
+        stack.extend(reversed(children(t)))
+
+
+def term_calls(term, acc=None):
+    """all ('call', name, args, site) nodes in a term"""
+    return [t for t in walk(term) if t[0] == "call"]
 
 
 def term_leaves(term, acc=None):
-    """leaf nodes: param / const / fnconst / unknown / cycle / upvar / static"""
-    if acc is None:
-        acc = []
-    if not isinstance(term, tuple):
-        return acc
-    k = term[0]
-    if k in ("param", "const", "fnconst", "unknown", "cycle", "upvar", "static", "resume"):
-        acc.append(term)
-    elif k == "call":
-        if not term[2]:
-            acc.append(term)
-        for a in term[2]:
-            term_leaves(a, acc)
-    elif k in ("field", "variant", "await", "try", "index", "un", "cast"):
-        term_leaves(term[1], acc)
-    elif k == "alt":
-        for a in term[1]:
-            term_leaves(a, acc)
-    elif k == "agg":
-        if not term[3]:
-            acc.append(term)
-        for a in term[3].values():
-            term_leaves(a, acc)
-    elif k == "tuple":
-        if not term[1]:
-            acc.append(term)
-        for a in term[1]:
-            term_leaves(a, acc)
-    elif k == "bin":
-        term_leaves(term[2], acc)
-        term_leaves(term[3], acc)
-    elif k == "mut":
-        term_leaves(term[1], acc)
-        for a in term[2]:
-            term_leaves(a, acc)
-    return acc
+    """leaf nodes: param / const / fnconst / unknown / cycle / upvar / static / nullary calls"""
+    out = []
+    for t in walk(term):
+        if t[0] in ("param", "const", "fnconst", "unknown", "cycle", "upvar", "static", "resume"):
+            out.append(t)
+        elif t[0] in ("call", "agg", "tuple") and not children(t):
+            out.append(t)
+    return out
 
 
 def term_has_call(term, pats):
@@ -471,36 +456,7 @@ def term_has_call(term, pats):
 
 def term_fields(term, acc=None):
     """all (adt, field) read anywhere in the term"""
-    if acc is None:
-        acc = set()
-    if not isinstance(term, tuple):
-        return acc
-    k = term[0]
-    if k == "field":
-        acc.add((term[2], term[3]))
-        term_fields(term[1], acc)
-    elif k == "call":
-        for a in term[2]:
-            term_fields(a, acc)
-    elif k in ("variant", "await", "try", "index", "un", "cast"):
-        term_fields(term[1], acc)
-    elif k == "alt":
-        for a in term[1]:
-            term_fields(a, acc)
-    elif k == "agg":
-        for a in term[3].values():
-            term_fields(a, acc)
-    elif k == "tuple":
-        for a in term[1]:
-            term_fields(a, acc)
-    elif k == "bin":
-        term_fields(term[2], acc)
-        term_fields(term[3], acc)
-    elif k == "mut":
-        term_fields(term[1], acc)
-        for a in term[2]:
-            term_fields(a, acc)
-    return acc
+    return {(t[2], t[3]) for t in walk(term) if t[0] == "field"}
 
 
 def strip(term, extra=()):
@@ -583,6 +539,14 @@ def show(term, depth=0):
         return f"{show(term[1], d)}⟨{'; '.join(show(a, d) for a in term[2])}⟩"
     if k == "upvar":
         return f"upvar{term[2]}"
+    if k == "partial":
+        return f"partial({show(term[1], d)})"
+    if k == "cycle":
+        return "↺"
+    if k == "resume":
+        return "resume"
+    if k == "static":
+        return f"static:{short(term[1])}"
     if k == "unknown":
         return f"?{term[1]}"
     return str(term)
@@ -1661,3 +1625,64 @@ def predicate_summary(F, fid):
                     all(b.path_avoiding([e], [fb]) is None for fb in false_blocks):
                 return (ds[1], name, val)
     return None
+
+
+def body_accesses(body):
+    """yield (bb, kind, place, line) for every place mentioned in a body (non-cleanup blocks).
+    kind in read/move/shared/mut/fake/write/discr/drop/callret"""
+    for i, blk in enumerate(body.blocks):
+        if blk.get("c"):
+            continue
+
+        def ops(o, ln):
+            if o[0] == "c":
+                yield (i, "read", o[1], ln)
+            elif o[0] == "m":
+                yield (i, "move", o[1], ln)
+
+        for s in blk["s"]:
+            ln = s.get("ln", 0)
+            yield (i, "write", s["l"], ln)
+            rv = s["r"]
+            k = rv["k"]
+            if k in ("use", "cast", "un", "repeat"):
+                yield from ops(rv["o"], ln)
+            elif k == "bin":
+                yield from ops(rv["a"], ln)
+                yield from ops(rv["b"], ln)
+            elif k in ("ref",):
+                yield (i, rv["m"], rv["p"], ln)
+            elif k == "rawptr":
+                yield (i, "mut", rv["p"], ln)
+            elif k == "discr":
+                yield (i, "discr", rv["p"], ln)
+            elif k == "agg":
+                for o in rv["o"]:
+                    yield from ops(o, ln)
+        t = blk["t"]
+        ln = t.get("ln", 0)
+        if t["k"] in ("call", "tailcall"):
+            for a in t["a"]:
+                yield from ops(a, ln)
+            if "d" in t:
+                yield (i, "callret", t["d"], ln)
+        elif t["k"] == "switch":
+            yield from ops(t["o"], ln)
+        elif t["k"] == "drop":
+            yield (i, "drop", t["p"], ln)
+
+
+def place_has_field(p, adt, field):
+    return any(isinstance(e, list) and e[0] == "f" and len(e) >= 5 and e[3] == adt and e[2] == field for e in p[1:])
+
+
+def field_writers(F, adt, field, kinds=("write", "mut", "callret")):
+    """families (and sites) that write / mutably borrow `adt.field` (directly or a sub-place of it)"""
+    out = []
+    rows = F.q("SELECT DISTINCT fn FROM field_access WHERE adt=? AND field=?", (adt, field))
+    for r in rows:
+        b = F.body(r["fn"])
+        for (bb, kind, p, ln) in body_accesses(b):
+            if kind in kinds and place_has_field(p, adt, field):
+                out.append((b, bb, kind, p, ln))
+    return out
